@@ -365,7 +365,11 @@ fn generate_impl_block_header(
     });
 
     let where_bound = match bounds {
-        Some(bounds) => quote! { where #(#bounds),* },
+        // the predicates the type itself declares are needed for `Ty<..>` to be well-formed
+        Some(bounds) => {
+            let existing = generics.where_clause.iter().flat_map(|w| &w.predicates);
+            quote! { where #(#existing,)* #(#bounds),* }
+        }
         None => {
             let bounds = generate_where_clause(crate_rename, generics, dependencies, concrete);
             quote! { #bounds }
